@@ -60,9 +60,9 @@ func TestC01_CodeSingleUse(t *testing.T) {
 
 func TestC04_RefreshRotation(t *testing.T) {
 	runEngine(t, "C04", EngCfg{
-		Weights: map[string]int{"authorize": 3, "redeem": 3, "refresh": 8, "revoke": 1, "advance": 1, "password": 2, "deviceAuth": 1, "deviceDecide": 1, "devicePoll": 1},
+		Weights: map[string]int{"authorize": 3, "redeem": 3, "refresh": 8, "revoke": 1, "advance": 2, "password": 2, "deviceAuth": 1, "deviceDecide": 1, "devicePoll": 1},
 		Stores:  []string{"mem", "mem", "tx"}, JWT: []bool{false, false, true}, RefreshScopeModes: []int{0, 0, 1},
-		Flows: allFlows,
+		Flows: allFlows, ShortLivedHalf: true,
 	}, func(l map[string]bool) bool { return l["refresh-replay"] && l["chain-depth>=2"] })
 }
 
